@@ -25,8 +25,7 @@ def run_pair_case(case):
     try:
         store = apicalls.arrays()
         for cfg in (case["a"], case["b"], case.get("c") or {}):
-            if cfg.get("func_obj"):
-                apicalls.func_object(cfg["func_obj"])
+            apicalls.prepare(cfg)
         obj0 = apicalls.objects_snapshot()
         ra = apicalls.make(case["a"], store)
         rb = apicalls.make(case["b"], store)
@@ -73,8 +72,7 @@ reg0 = apicalls.registry_snapshot()
 events = []
 for idx in seq:
     cfg = calls[idx]
-    if cfg.get("func_obj"):
-        apicalls.func_object(cfg["func_obj"])
+    apicalls.prepare(cfg)
     before = {k: apicalls.digest_arr(v) for k, v in store.items()}
     obj_before = apicalls.objects_snapshot()
     exp_before = None if cfg.get("expected") is None else list(cfg["expected"])
